@@ -243,6 +243,42 @@ fn main() {
                 writeln!(out, "{}", json!({"i": i, "fails": cx.fails})).unwrap();
             }
         }
+        "schemas" => {
+            // impl -> spec observations for C12: real schema + real bytes per (type, version)
+            // input lines: {t, ver, vs:[model values]}
+            let input = std::fs::File::open(&args[2]).expect("records file");
+            let mut out = BufWriter::new(std::fs::File::create(&args[3]).expect("out file"));
+            for line in std::io::BufReader::new(input).lines() {
+                let line = line.unwrap();
+                if line.trim().is_empty() {
+                    continue;
+                }
+                let rec: Value = serde_json::from_str(&line).expect("record json");
+                let key = canon(&rec["t"]);
+                let ver = rec["ver"].as_u64().unwrap() as u32;
+                let Some(e) = reg.get(&key) else {
+                    writeln!(out, "{}", json!({"tool_error": format!("missing type {}", key)})).unwrap();
+                    continue;
+                };
+                let schema = match e.ops.schema(ver) {
+                    Outcome::Ok(s) => schema_node(&s),
+                    other => {
+                        writeln!(out, "{}", json!({"t": rec["t"], "ver": ver, "schema_error": format!("{:?}", other)})).unwrap();
+                        continue;
+                    }
+                };
+                let mut cases = vec![];
+                for v in rec["vs"].as_array().unwrap() {
+                    let mv: MV = serde_json::from_value(v.clone()).expect("model value");
+                    let mut sink = Tap::new();
+                    sink.keep_log = false;
+                    if e.ops.save(&mv, ver, Mode::Bare, &mut sink).is_ok() {
+                        cases.push(json!({"v": v, "bytes": sink.data}));
+                    }
+                }
+                writeln!(out, "{}", json!({"t": rec["t"], "ver": ver, "schema": schema, "cases": cases})).unwrap();
+            }
+        }
         "layouts" => {
             let mut out = BufWriter::new(std::fs::File::create(&args[2]).expect("out file"));
             for (k, e) in reg.iter() {
